@@ -10,7 +10,8 @@ operation, computed on bit patterns in units of 2^-1074).
 * `addX_nearest`, `mulX_nearest`, `divX_nearest`: in general a finite result is a REAL nearest to the exact result
   (`DecFloat.magBits_nearest`; ties to even: `magBits_tie_even`); `addX_sign`;
 * `Nice` (finite, a proper 64-bit pattern, not `-0.0`), `eq_of_units_eq` (such patterns are determined by their value),
-  `addX_zero_left` (`0.0 + y = y`), `addX_nice`: what `Lemmas/AggPerm.lean` needs to discharge `RealAddLaws`.
+  `addX_zero_left` (`0.0 + y = y`), `addX_nice`: what `Lemmas/RealSums.lean` needs to discharge `RealAddLaws`;
+* `isqrt_spec`: the integer square root used by `sqrtX` is `⌊√n⌋` (the nearest-property of `sqrtX` itself is not proved).
 -/
 namespace Sqlgrep
 namespace F64
@@ -259,6 +260,30 @@ theorem addX_zero_left {y : Nat} (hy : Nice y) : addX 0 y = y := by
   have hu0 : units 0 = 0 := by decide
   have := addX_nice h0 hy ⟨y, hy.1, by rw [hu0]; omega⟩
   exact eq_of_units_eq this.1 hy (by rw [this.2, hu0]; omega)
+
+/-! ### the integer square root -/
+
+theorem isqrtAux_spec (n : Nat) : ∀ (i r : Nat), r * r ≤ n → n < (r + 2 ^ i) * (r + 2 ^ i) →
+    isqrtAux n i r * isqrtAux n i r ≤ n ∧ n < (isqrtAux n i r + 1) * (isqrtAux n i r + 1)
+  | 0, r, h1, h2 => by simpa [isqrtAux] using ⟨h1, h2⟩
+  | i + 1, r, h1, h2 => by
+    rw [isqrtAux]
+    by_cases hc : (r + 2 ^ i) * (r + 2 ^ i) ≤ n
+    · rw [if_pos hc]
+      apply isqrtAux_spec n i (r + 2 ^ i) hc
+      have : r + 2 ^ i + 2 ^ i = r + 2 ^ (i + 1) := by rw [Nat.pow_succ]; omega
+      rw [this]; exact h2
+    · rw [if_neg hc]
+      exact isqrtAux_spec n i r h1 (by omega)
+
+/-- `isqrt n = ⌊√n⌋` -/
+theorem isqrt_spec (n : Nat) : isqrt n * isqrt n ≤ n ∧ n < (isqrt n + 1) * (isqrt n + 1) := by
+  unfold isqrt
+  apply isqrtAux_spec n _ 0 (by simp)
+  rw [Nat.zero_add, ← Nat.pow_add]
+  have h1 : n < 2 ^ (n.log2 + 1) := Nat.lt_log2_self
+  have h2 : (2:Nat) ^ (n.log2 + 1) ≤ 2 ^ (n.log2 / 2 + 1 + (n.log2 / 2 + 1)) := Nat.pow_le_pow_right (by decide) (by omega)
+  omega
 
 end F64
 end Sqlgrep
